@@ -26,4 +26,7 @@ VARIANTS = [
     V("N-range-test-not-between", D, "    if value < start or value > stop:", "    if not (start <= value <= stop):", None),
     V("N-rename-index", D, "    index = arr.indexes[dim].get_slice_bound(value, \"right\")\n    return index - 1", "    bound = arr.indexes[dim].get_slice_bound(value, \"right\")\n    return bound - 1", None),
     V("N-trim-strict-half-step", "src/soundevent/arrays/dimensions.py", "    if coords[-1] >= stop - step / 2:", "    if coords[-1] > stop - 0.5 * step:", None),
+    # wave 7
+    V("range-by-linspace", "src/soundevent/arrays/dimensions.py", "    coords = np.arange(\n        start=start,\n        stop=stop,\n        step=step,\n        dtype=dtype,\n    )",
+      "    coords = np.linspace(start, stop, num=int(round((stop - start) / step)), endpoint=False, dtype=dtype)", "R16.1"),
 ]
